@@ -47,6 +47,8 @@ Val(n) == CASE n = "i1" -> Sc("int", 10000) [] n = "i2" -> Sc("int", 20000) [] n
             [] n \in {"R12", "M12"} -> V("list", 0, "-", "-", <<Sc("int", 10000), Sc("int", 20000)>>)
             \* an object of a student class whose __repr__ and __str__ raise: equal to nothing but itself, unordered, truthy
             [] n = "Brepr" -> Sc("obj", 0)
+            \* an object with an attribute named `value` holding 0: equal to nothing but itself, truthy - not its value
+            [] n = "Vobj" -> Sc("obj", 1)
             [] n = "T123" -> V("tuple", 0, "-", "-", <<Sc("int", 10000), Sc("int", 20000), Sc("int", 30000)>>)
             [] n = "L1a" -> V("list", 0, "-", "-", <<Sc("int", 10000), St("abc", "plain")>>)
             [] n = "T1a" -> V("tuple", 0, "-", "-", <<Sc("int", 10000), St("abc", "plain")>>)
